@@ -25,7 +25,12 @@ RULE = ("one unit = one configuration (grid x (minishard,shard,preshift) "
         "shard files compared byte for byte with the BFS result. "
         "Two-scale family: on ONE accessor store any subset of scale s0, close, "
         "store any subset of scale s1, close, close again (the pattern "
-        "compute-scales uses), ascending and descending, both strategies. "
+        "compute-scales uses), ascending and descending, both strategies; "
+        "the same with a single close after both scales (the pattern "
+        "convert-chunks uses) and with the two scales' chunks stored "
+        "alternately - all three must give byte-identical shard files. "
+        "Big-payload family: chunks of 0..12289 bytes (around the 4096-byte "
+        "block size of the write buffers), 4 orders x both strategies. "
         "Non-trivial states: >= 2 chunks stored.")
 ASSUMPTIONS = [
     "one write session per scale, each chunk stored once (the statement's "
@@ -82,6 +87,9 @@ def units(tier):
                             "data_enc": de})
     u += [{"kind": "two-scale", "configs": two[i:i + 2], "tier": tier}
           for i in range(0, len(two), 2)]
+    bc = big_configs()
+    u += [{"kind": "big", "configs": bc[i:i + 4], "tier": tier}
+          for i in range(0, len(bc), 4)]
     return u
 
 
@@ -100,6 +108,54 @@ def _report(col, vio, family):
             n += 1
             col.violation(sig, case, exp, obs)
     return n
+
+
+BIG_GRIDS = [((3, 1, 1), 1), ((3, 2, 1), 1), ((5, 3, 1), 2)]
+BIG_TRIPLES = [(0, 0, 0), (1, 1, 0), (1, 0, 1), (0, 1, 0)]
+
+
+def big_configs():
+    """payloads of 0..12289 bytes (around the 4096-byte block size the
+    write buffers are read back with)"""
+    out = []
+    for size, c in BIG_GRIDS:
+        for t in BIG_TRIPLES:
+            for ie, de in (("raw", "raw"), ("gzip", "raw")):
+                out.append({"size": list(size), "chunk": c,
+                            "triple": list(t), "index_enc": ie,
+                            "data_enc": de, "payloads": "big"})
+    return out
+
+
+def big_unit(col, configs, family, pkg, spec):
+    """four store orders x both strategies with big payloads; all runs
+    storing the same subset must give byte-identical files"""
+    for cfg in configs:
+        n = len(se.chunk_list(cfg["size"], cfg["chunk"]))
+        orders = [tuple(range(n)), tuple(range(n))[::-1],
+                  tuple(range(0, n, 2)), tuple(range(0, n, 2))[::-1]]
+        ref = {}
+        for strategy in ("in memory", "on disk"):
+            c = dict(cfg, strategy=strategy)
+            for order in orders:
+                vio = se.Violations()
+                dg = se.run_history(c, order, vio, pkg=pkg, spec=spec)
+                key = tuple(sorted(order))
+                if dg is not None:
+                    if key in ref and ref[key][0] != dg:
+                        vio.add("C05/bytes/shard-files-differ-across-store-"
+                                "orders", se.case_of(
+                                    c, order, other_order=list(ref[key][1])),
+                                "byte-identical shard files",
+                                "different bytes")
+                    ref.setdefault(key, (dg, order))
+                col.r["traces"] += 1
+                col.r["states"] += 1
+                col.r["transitions"] += len(order)
+                bad = _report(col, vio, family)
+                col.ev(1, 1, "big-payload-ok" if not bad
+                       else "big-payload-violating")
+    col.sample(se.case_of(dict(configs[0], strategy="on disk"), [0, 1, 2]))
 
 
 def explore_config(col, cfg, tier, family, pkg, spec, ondisk=True):
@@ -180,12 +236,28 @@ def two_scale_config(col, cfg, family):
             for s0 in itertools.combinations(range(n0), r0):
                 for r1 in range(n1 + 1):
                     for s1 in itertools.combinations(range(n1), r1):
+                        ref = None
                         for o0, o1 in ((s0, s1), (s0[::-1], s1[::-1])):
-                            vio = se.Violations()
-                            se.run_two_scale(c, o0, o1, vio, pkg=True,
-                                             spec=False)
-                            runs += 1
-                            bad += _report(col, vio, family)
+                            for mode in ("close-between", "single-close",
+                                         "alternating"):
+                                vio = se.Violations()
+                                dg = se.run_two_scale(c, o0, o1, vio,
+                                                      pkg=True, spec=False,
+                                                      mode=mode)
+                                runs += 1
+                                if ref is None:
+                                    ref = dg
+                                elif dg is not None and dg != ref:
+                                    vio.add(
+                                        "C05/bytes/shard-files-differ-"
+                                        "across-write-interleavings",
+                                        se.case_of(c, o0,
+                                                   order_s1=list(o1),
+                                                   family="two-scale",
+                                                   mode=mode),
+                                        "byte-identical shard files",
+                                        "different bytes")
+                                bad += _report(col, vio, family)
     col.r["traces"] += runs
     col.r["states"] += runs
     col.r["transitions"] += runs
@@ -194,6 +266,9 @@ def two_scale_config(col, cfg, family):
 
 def run_unit(u):
     col = Collector()
+    if u.get("kind") == "big":
+        big_unit(col, u["configs"], FAMILY, pkg=True, spec=False)
+        return col.result()
     if u.get("kind") == "two-scale":
         for cfg in u["configs"]:
             two_scale_config(col, cfg, FAMILY)
@@ -221,9 +296,22 @@ def replay(case, family=FAMILY, pkg=True, spec=False):
     vio = se.Violations()
     cfg = {k: case[k] for k in ("size", "chunk", "triple", "index_enc",
                                 "data_enc", "strategy")}
+    if case.get("payloads"):
+        cfg["payloads"] = case["payloads"]
     if case.get("family") == "two-scale":
-        se.run_two_scale(cfg, tuple(case["order"]), tuple(case["order_s1"]),
-                         vio, pkg=pkg, spec=spec)
+        dg = se.run_two_scale(cfg, tuple(case["order"]),
+                              tuple(case["order_s1"]), vio, pkg=pkg,
+                              spec=spec,
+                              mode=case.get("mode", "close-between"))
+        if case.get("mode"):
+            o0 = tuple(sorted(case["order"]))
+            o1 = tuple(sorted(case["order_s1"]))
+            dg0 = se.run_two_scale(cfg, o0, o1, se.Violations(), pkg=False,
+                                   spec=False)
+            if dg is not None and dg0 is not None and dg != dg0:
+                vio.add("C05/bytes/shard-files-differ-across-write-"
+                        "interleavings", dict(case), "byte-identical shard "
+                        "files", "different bytes")
         for sig, c, exp, obs in vio.items:
             if sig.startswith(family):
                 col.violation(sig, c, exp, obs)
